@@ -299,14 +299,14 @@ theorem applyAct_invS_new (s : State) (fh fw : List Nat) (h : s.InvS) :
   have hc := h herr
   refine hc.general ?_ ?_ ?_ ?_ ?_
   · intro o hl hl'
-    have : (s.alloc ⟨s.nextVid, [], [], [], false⟩).isLive o = true := isLive_alloc_of_isLive _ hl
-    rw [show (s.alloc ⟨s.nextVid, [], [], [], false⟩).isLive o = false from hl'] at this
+    have : (s.alloc { vid := s.nextVid, held := [], weaks := [], script := [], panics := false }).isLive o = true := isLive_alloc_of_isLive _ hl
+    rw [show (s.alloc { vid := s.nextVid, held := [], weaks := [], script := [], panics := false }).isLive o = false from hl'] at this
     cases this
   · intro o hl' hl h0
     have hne : s.heap.length ≠ o := by
       intro e; subst e
-      have : (s.alloc ⟨s.nextVid, [], [], [], false⟩).isLive s.heap.length = true := isLive_alloc_new _ _
-      rw [show (s.alloc ⟨s.nextVid, [], [], [], false⟩).isLive s.heap.length = false from hl'] at this
+      have : (s.alloc { vid := s.nextVid, held := [], weaks := [], script := [], panics := false }).isLive s.heap.length = true := isLive_alloc_new _ _
+      rw [show (s.alloc { vid := s.nextVid, held := [], weaks := [], script := [], panics := false }).isLive s.heap.length = false from hl'] at this
       cases this
     simp [hne]
     simpa using h0
@@ -449,6 +449,13 @@ theorem applyAct_invS_getMut (s : State) (fh fw : List Nat) (r : Nat) (h : s.Inv
 
 theorem applyAct_invS_setPanic (s : State) (fh fw : List Nat) (q : Nat) (h : s.InvS) :
     (applyAct s fh fw (.setPanic q)).InvS := by
+  simp only [applyAct]
+  split
+  · exact InvS_modVal h _ _ (fun _ => rfl)
+  · exact h.badRoot q
+
+theorem applyAct_invS_setShallow (s : State) (fh fw : List Nat) (q : Nat) (h : s.InvS) :
+    (applyAct s fh fw (.setShallow q)).InvS := by
   simp only [applyAct]
   split
   · exact InvS_modVal h _ _ (fun _ => rfl)
@@ -885,9 +892,9 @@ namespace State
 
 /-- clone branch: the handles of the live value are copied into a fresh allocation whose handle
 replaces the root; the old root handle goes to a new `rcDrop` frame -/
-theorem InvSCore.makeMut_clone {s sc s' : State} {o : Nat} {v v' : Val} (h : s.InvSCore)
+theorem InvSCore.makeMut_clone_le {s sc s' : State} {o : Nat} {v v' : Val} (h : s.InvSCore)
     (hq : Quiet s sc) (hlo : s.isLive o = true) (hheld : s.heldOf o = v.held)
-    (hv' : v'.held = v.held)
+    (hv' : ∀ x, v'.held.count x ≤ v.held.count x)
     (hh : s'.heap = (sc.alloc v').heap) (hst : s'.stack = .rcDrop o :: sc.stack)
     (he : ∀ x, s'.ext x + (if o = x then 1 else 0)
       = sc.ext x + (if s.heap.length = x then 1 else 0)) : s'.InvSCore := by
@@ -908,7 +915,8 @@ theorem InvSCore.makeMut_clone {s sc s' : State} {o : Nat} {v v' : Val} (h : s.I
     have h1 := he x
     have h2 := hH x
     rw [if_neg hx, if_neg hx2, hq.ext] at h1
-    rw [inHeap_congr hh, inHeap_alloc, hq.inHeap, hv']
+    have h3 := hv' x
+    rw [inHeap_congr hh, inHeap_alloc, hq.inHeap]
     omega
   · intro x hl' hl h0
     have hx : o ≠ x := fun e => by rw [← e, hlo] at hl; cases hl
@@ -919,6 +927,24 @@ theorem InvSCore.makeMut_clone {s sc s' : State} {o : Nat} {v v' : Val} (h : s.I
     exact (Wit_congr hh x).mpr (Wit_alloc _ (hq.wit x hw))
   · intro x
     rw [hst, belowPhase3_rcDrop, hq.stack]; exact h.2.2 x
+
+/-- clone branch, deep `Clone`: the fresh value holds copies of exactly the handles of `v` -/
+theorem InvSCore.makeMut_clone {s sc s' : State} {o : Nat} {v v' : Val} (h : s.InvSCore)
+    (hq : Quiet s sc) (hlo : s.isLive o = true) (hheld : s.heldOf o = v.held)
+    (hv' : v'.held = v.held)
+    (hh : s'.heap = (sc.alloc v').heap) (hst : s'.stack = .rcDrop o :: sc.stack)
+    (he : ∀ x, s'.ext x + (if o = x then 1 else 0)
+      = sc.ext x + (if s.heap.length = x then 1 else 0)) : s'.InvSCore :=
+  h.makeMut_clone_le hq hlo hheld (fun x => by rw [hv']; exact Nat.le_refl _) hh hst he
+
+/-- clone branch, shallow `Clone`: the fresh value holds no handle at all -/
+theorem InvSCore.makeMut_clone_shallow {s s' : State} {o : Nat} {v v' : Val} (h : s.InvSCore)
+    (hlo : s.isLive o = true) (hheld : s.heldOf o = v.held)
+    (hv' : v'.held = [])
+    (hh : s'.heap = (s.alloc v').heap) (hst : s'.stack = .rcDrop o :: s.stack)
+    (he : ∀ x, s'.ext x + (if o = x then 1 else 0)
+      = s.ext x + (if s.heap.length = x then 1 else 0)) : s'.InvSCore :=
+  h.makeMut_clone_le (Quiet.refl s) hlo hheld (fun x => by rw [hv']; simp) hh hst he
 
 /-- steal branch: the value moves to a fresh allocation whose handle replaces the root; the old
 allocation, to which the root was the only strong handle, is given up -/
@@ -999,6 +1025,19 @@ theorem applyAct_invS_makeMut (s : State) (fh fw : List Nat) (r : Nat) (hI : s.I
           idxMod_lt_of_nthMod ((useRoot_eq_some_iff s r o).mp hu).1
         split
         · -- clone
+          by_cases hsh : v.shallow = true
+          · -- shallow `Clone`: no handle is copied
+            simp only [if_pos hsh]
+            intro herr
+            have herr0 : s.err = none := herr
+            refine (h herr0).makeMut_clone_shallow (v := v)
+              (v' := { v with vid := s.nextVid, held := [], weaks := [] }) hlo hheld rfl rfl rfl ?_
+            intro x
+            have := ext_withRoots_set (s.alloc { v with vid := s.nextVid, held := [], weaks := [] })
+              (idxMod s.roots r) s.heap.length x (by simpa using hilt)
+            simp only [alloc_roots, hr, Option.some.injEq, ext_alloc] at this
+            exact this
+          simp only [if_neg hsh]
           intro herr
           have hq := Quiet.cloneHandles s v
           have herr0 : s.err = none := hq.err herr
@@ -1068,6 +1107,7 @@ theorem applyAct_invS (s : State) (fh fw : List Nat) (a : Act) (hI : s.Inv) (hS 
   | counts r => exact applyAct_invS_counts s fh fw r hS
   | wcounts w => exact applyAct_invS_wcounts s fh fw w hS
   | setPanic q => exact applyAct_invS_setPanic s fh fw q hS
+  | setShallow q => exact applyAct_invS_setShallow s fh fw q hS
   | upgradeField k => exact applyAct_invS_upgradeField s fh fw k hS
   | cloneField k => exact applyAct_invS_cloneField s fh fw k hS
 
